@@ -77,6 +77,9 @@ CLAIMS = {
 MODEL_NOTES = {
     "C02": "In addition TLC enumerates all ordered pairs of a universe of small polynomials with evaluation points (MC_Algebra), checks that evaluation is a ring homomorphism, staged = one-shot and the swap is an involution on the specification, and every pair is replayed through five binding forms, six carriers, staged evaluation and the q0<->q1 swap.",
     "C03": "In addition TLC enumerates every attribute triple with up to 2 (thorough: 3) rows over exponents 0..1 in two indeterminates under all 36 combinations of explicit and global retain flags (MC_Attr), checks that cleaning is idempotent, denotation-preserving and drops exactly the prescribed rows and names, and every triple is replayed on the three constructors.",
+    "C04": "In addition TLC enumerates all ordered pairs of a universe of small polynomial arrays whose name tuples are sorted, unsorted, overlapping, disjoint and ordered differently as numbers and strings (q2/q10), with and without all-zero terms, over broadcasting shapes (MC_Align), checks on the specification's constructive alignment that alignment preserves the polynomial, yields one common layout and is idempotent, and every pair is replayed on the alignment functions (and on re-alignment of their outputs).",
+    "C13": "In addition TLC enumerates every operand of a small universe (unsorted names, q2/q10, all-zero terms, unused names, 0-d to 2-d) x every medium (pickle protocols 0-5, copy, deepcopy, .copy(), text through both writers to buffer and path) x the four retain settings in force when loading (MC_Roundtrip), checks that what each medium carries denotes the stored polynomial, and every vector is replayed.",
+    "C15": "In addition the programs of the bounded ring model over a universe with all-zero terms (MC_Ring, universe 'config') are replayed under all 16 settings of the four semantic options and eight coefficient dtypes in rotation.",
     "C06": "In addition TLC checks linearity, the product rule, commuting mixed partials and 'free of the variable => 0' on all ordered pairs of a universe of small polynomials (MC_Algebra) and the pairs (and their products) are replayed through all designation kinds under the four retain settings.",
     "C07": "In addition TLC enumerates all ordered pairs of a universe of small polynomials under the four settings (MC_Order), checks trichotomy, antisymmetry, transitivity against every third polynomial, equality only for identical polynomials and numeric order of constants on the specification, and replays every pair on the six operators, maximum/minimum, comparisons with plain numbers and the lead queries.",
     "C09": "In addition TLC enumerates the index-expression grammar (integers, slices, newaxis, ellipsis, integer lists incl. several lists separated by slices) and all axis permutations for small shapes (MC_Shape), checks that the specification's gather maps are total, and every expression is replayed.",
@@ -84,7 +87,7 @@ MODEL_NOTES = {
     "C12": "In addition TLC enumerates all 196 ordered dtype pairs (MC_DType), checks commutativity / idempotence / absorption of the promotion rules and idempotence of casts (it refuted associativity, which numpy's own table does not have either), and every pair is replayed: model-vs-numpy binding events, dtype= construction, astype, +, -, *, and x - x.",
     "C16": "In addition TLC enumerates all ordered pairs of a universe of small polynomials printed as a two-element array under every display order and both retain_names settings (MC_Text), checks that the display order totally orders each element's monomials, and every pair is replayed on str/repr.",
     "C18": "In addition TLC enumerates every key matrix of a small universe and every (start, stop, norm, flags) vector (MC_Sort), checks that the order is a strict total order and basic laws of the index sets, and every vector is replayed on glexsort / glexindex / bindex / monomial.",
-    "C20": "In addition TLC enumerates single exponents across the range (MC_Keys; thorough: every exponent 0..57500), checks that the key codec is a bijection and that the guaranteed range avoids unstorable code points, and every exponent is replayed through construction, the raw view, pickling and a multiplication.",
+    "C20": "In addition TLC enumerates single exponents across the range (MC_Keys; thorough: every exponent 0..57500), checks that the key codec is a bijection and that the guaranteed range avoids unstorable code points, and every exponent (the Unicode white-space code points and UTF-8 length boundaries are part of the quick range) is replayed through construction, the raw view, pickling, a multiplication and text files written by both writers, as the only key and as the last of two keys in two indeterminates.",
 }
 NOT_YET = "check under construction in this session: the TLA+ action exists in the design (DESIGN.md section 6) but is not yet bound to the implementation by a registered check"
 
